@@ -321,6 +321,8 @@ def coq_op(op, table=None):
         return "OpSer %s %s" % (coq_keys(op["keys"]), orc)
     if o == "ref":
         return "OpRef %s %s" % (coq_keys(op["keys"]), orc)
+    if o == "rt":
+        return "OpRt %s %s" % (coq_keys(op["keys"]), orc)
     if o == "de":
         return "OpDe %s %s %s" % (coq_keys(op["keys"]), coq_table(table), orc)
     if o == "mut":
